@@ -86,6 +86,7 @@ mxArray* makeObject(int objId) {
 int objectId(const mxArray* a) { check(a, "objectId"); return a->cls == mxOBJECT_CLASS ? a->objId : -1; }
 bool isObject(const mxArray* a) { check(a, "isObject"); return a->cls == mxOBJECT_CLASS; }
 std::string charValue(const mxArray* a) { check(a, "charValue"); return a->str; }
+mxArray* makeCharColumn(const std::string& s) { mxArray* a = mxCreateString(s.c_str()); a->m = s.size(); a->n = 1; return a; }
 void beginOp() { ++g_depth; }
 void endOp() {
   if (--g_depth > 0) return;
@@ -134,7 +135,7 @@ mxArray* mxCreateDoubleScalar(double value) {
 }
 mxArray* mxCreateString(const char* str) {
   mxArray* a = alloc();
-  a->cls = mxCHAR_CLASS; a->str = str ? str : ""; a->m = 1; a->n = a->str.size();
+  a->cls = mxCHAR_CLASS; a->str = str ? str : ""; a->m = a->str.empty() ? 0 : 1; a->n = a->str.size();   // '' is 0-by-0
   return a;
 }
 mxArray* mxCreateStructMatrix(mwSize m, mwSize n, int nfields, const char** fieldnames) {
